@@ -11,14 +11,14 @@ CHECKS = {
 	'C07': dict(
 		category='exploration',
 		technique='exhaustive enumeration (all k-mers k<=8, all byte strings len<=2) + Hypothesis-generated long k-mers/indices against a positional-arithmetic oracle',
-		text='Complete enumeration of the small sub-domains named in the property (every k-mer up to k=8, every 0..2-byte string, boundary k-mers for every k up to 32, over-long strings) plus generated 9..32-mers, near-miss bytes, 64-bit indices, Bio.Seq / NumPy-integer arguments (index and k, for every k up to 32) and strided byte buffers, and short call sequences executed as the first native calls of a fresh interpreter (lazily initialised state; interpreter started plainly, with -O, -OO or -X dev), each compared with Python-int positional arithmetic and a 256-entry complement table. Exhaustive where the property says exhaustive; sampled (tens of thousands to a million cases) for k>8.',
+		text='Complete enumeration of the small sub-domains named in the property (every k-mer up to k=8, every 0..2-byte string, boundary k-mers for every k up to 32, over-long strings) plus generated 9..32-mers, near-miss bytes, 64-bit indices, Bio.Seq / NumPy-integer arguments (index and k, for every k up to 32) and strided byte buffers, and short call sequences executed as the first native calls of a fresh interpreter (lazily initialised state; interpreter started plainly, with -O, -OO or -X dev) and conversions called from several Python threads at once, each compared with Python-int positional arithmetic and a 256-entry complement table. Exhaustive where the property says exhaustive; sampled (tens of thousands to a million cases) for k>8.',
 		note='Trusts the harness oracle (vlib/refmodel/kmer.py). Native code is tested as the generated C translation compiled by gcc (Cython is not available in the sandbox to re-translate an edited .pyx).',
 		design='DESIGN.md §4 C07',
 	),
 	'C01': dict(
 		category='exploration',
 		technique='exhaustive short strings x small specs + Hypothesis fragment-built sequences vs a definitional both-strand k-mer finder (reference model)',
-		text='Every string up to length 6 (quick) / 8 (thorough) over two 4-letter alphabets for 18 (k,prefix) specs is compared with a definitional scan of both strands, which settles off-by-one errors in either search bound and the reverse slice for short inputs completely; the KmerSpec object is reached in eight legal ways (prefix in upper / lower / mixed case, str / bytes / bytearray / Bio.Seq, k as a NumPy integer, pickled copy); one-shot iterables (generator, map, iter) together with explicit accumulators; generated multi-sequence inputs (arbitrary bytes, overlapping/self-overlapping/palindromic prefixes up to 12 nt, hits flush with either end, k up to 32) are run through all four input types and all accumulators and compared value-for-value, dtype and order; find_kmers matches are compared with the definitional occurrences; whitespace inside a sequence counts as any other non-ACGT character (it is never removed so that its flanks join); 3 cases in 5 are preceded by calls that fail part-way, which must leave no trace.',
+		text='Every string up to length 6 (quick) / 8 (thorough) over two 4-letter alphabets for 18 (k,prefix) specs is compared with a definitional scan of both strands, which settles off-by-one errors in either search bound and the reverse slice for short inputs completely; the KmerSpec object is reached in eight legal ways (prefix in upper / lower / mixed case, str / bytes / bytearray / Bio.Seq, k as a NumPy integer, pickled copy); one-shot iterables (generator, map, iter) together with explicit accumulators; accumulator objects re-used with and without clear(); 1.6 M-nucleotide sequences with prefix occurrences planted around power-of-two and power-of-ten offsets; generated multi-sequence inputs (arbitrary bytes, overlapping/self-overlapping/palindromic prefixes up to 12 nt, hits flush with either end, k up to 32) are run through all four input types and all accumulators and compared value-for-value, dtype and order; find_kmers matches are compared with the definitional occurrences; whitespace inside a sequence counts as any other non-ACGT character (it is never removed so that its flanks join); 3 cases in 5 are preceded by calls that fail part-way, which must leave no trace.',
 		note='Trusts vlib/refmodel/kmer.py (literal reverse-complement strand, Python-int base-4 code). Dense accumulator only for k<=12 (4^k bytes). Native encoders tested as the existing C translation.',
 		design='DESIGN.md §4 C01',
 	),
@@ -39,14 +39,14 @@ CHECKS = {
 	'C20': dict(
 		category='exploration',
 		technique='exhaustive index expressions (n<=4/6) over 3 container types + Hypothesis-generated expressions, equality pairs and list-mutation histories vs a Python list model',
-		text='Every int index, slice (all start/stop/step over a small range incl. step 0), index list of length <=3 and boolean mask is evaluated on SignatureArray, SignatureList and file-backed HDF5Signatures of length 0..4 (quick) / 0..6 (thorough) and compared with what a plain list of the arrays gives (selection, error class, k-mer spec, dtype, caller index array unmodified); longer collections in further container variants (int32 / uint64 bounds, windows with bounds[0] != 0, views, gzip-compressed files), ill-typed indices, unsigned indices up to 2^64-1, cross-container equality pairs (incl. reverse-complement prefixes) range objects (every start / stop / step over the small range) and 50-step SignatureList mutation histories (model-based, including sub-collections sliced off earlier, which must stay independent lists) are generated.',
+		text='Every int index, slice (all start/stop/step over a small range incl. step 0), index list of length <=3 and boolean mask is evaluated on SignatureArray, SignatureList and file-backed HDF5Signatures of length 0..4 (quick) / 0..6 (thorough) and compared with what a plain list of the arrays gives (selection, error class, k-mer spec, dtype, caller index array unmodified); longer collections in further container variants (int32 / uint64 bounds, windows with bounds[0] != 0, views, gzip-compressed files), ill-typed indices, unsigned indices up to 2^64-1, pickled and deep-copied containers, cross-container equality pairs (incl. reverse-complement prefixes and reference sets carrying identical release metadata) range objects (every start / stop / step over the small range) and 50-step SignatureList mutation histories (model-based, including sub-collections sliced off earlier, which must stay independent lists) are generated.',
 		note='Oracle is a Python list; view/copy semantics are not asserted. A Python bool as scalar index is excluded (list and NumPy semantics disagree). Two genuine defects found and repaired (see KNOWN_FINDINGS.txt).',
 		design='DESIGN.md §4 C20',
 	),
 	'C05': dict(
 		category='exploration',
 		technique='Hypothesis-generated collections x containers x chunk sizes x index selections x out buffers x thread counts, repeated runs; differential oracle: pairwise jaccarddist + exact rational distance per cell (bit compare)',
-		text='Every cell of jaccarddist_array / jaccarddist_matrix / jaccarddist_pairwise (square and condensed) is compared bit-for-bit with the two-signature distance and, for sets <= 400 elements, with the exact rational value rounded once to binary32, over generated collections (empty signatures, duplicates, 5000-element signatures) held in SignatureArray (incl. int32 / unsigned / big-endian bounds and zero-copy windows whose bounds do not start at 0), SignatureList, plain list and HDF5 files, values aliasing modulo 2^16/2^32 under mixed dtypes, index arrays of several integer dtypes, with chunk sizes 1..n+1, permuted/repeated/empty index selections, fresh and strided out buffers, and 1..16 OpenMP threads, each call repeated 3x (quick) / 20x (thorough); a sample of cases is re-run in a fresh interpreter whose OpenMP runtime is configured through the environment (OMP_THREAD_LIMIT below the requested thread count, OMP_DYNAMIC, OMP_SCHEDULE, OMP_NUM_THREADS, OMP_PROC_BIND).',
+		text='Every cell of jaccarddist_array / jaccarddist_matrix / jaccarddist_pairwise (square and condensed) is compared bit-for-bit with the two-signature distance and, for sets <= 400 elements, with the exact rational value rounded once to binary32, over generated collections (empty signatures, duplicates, 5000-element signatures) held in SignatureArray (incl. int32 / unsigned / big-endian bounds and zero-copy windows whose bounds do not start at 0), SignatureList, plain list and HDF5 files, values aliasing modulo 2^16/2^32 under mixed dtypes, index arrays of several integer dtypes, with chunk sizes 1..n+1, permuted/repeated/empty index selections, fresh and strided out buffers, and 1..16 OpenMP threads, each call repeated 3x (quick) / 20x (thorough); a sample of cases is re-run in a fresh interpreter whose OpenMP runtime is configured through the environment (OMP_THREAD_LIMIT below the requested thread count, OMP_DYNAMIC, OMP_SCHEDULE, OMP_NUM_THREADS, OMP_PROC_BIND); further dimensions: lists of mixed integer types, queries sliced from the open reference file, several Python threads calling at once, 999..2049 references against a vectorised exact oracle, a call interrupted from a signal handler whose out buffer is then re-used and watched.',
 		note='The OpenMP dynamic schedule cannot be owned from Python: thread interleavings are sampled (thread counts x repeats), not enumerated, so a rare data race can be missed (a seeded shared-variable race is caught within the quick budget). OMP_WAIT_POLICY=passive is set for the workers.',
 		design='DESIGN.md §4 C05',
 	),
@@ -60,21 +60,21 @@ CHECKS = {
 	'C19': dict(
 		category='fault_enumeration',
 		technique='process-level fault injection: forked writer ended (SIGKILL / SIGTERM / SIGINT) before each h5py call boundary (all points enumerated per generated payload) + strace system-call fault injection; oracle: load raises or loads exactly the payload',
-		text='For each generated payload (both write paths, small and multi-megabyte, with/without compression) every storage-call boundary of the write is used as a crash point (one forked writer per point, plus the after-close control), the writer being the library call or the `signatures create` command and being ended by SIGKILL (nothing runs), SIGTERM or SIGINT (the interpreter unwinds, context managers close the file), the output path being absent, junk or an older complete signature file, the collection being handed over directly, as nested wrappers or as a collection loaded from another signature file; for a sample of payloads every write-type system call of a fresh writer process is used as a crash point through strace fault injection (crashes inside H5Fclose); the file left behind must be refused or load as exactly the payload.',
+		text='For each generated payload (both write paths, small and multi-megabyte, with/without compression) every storage-call boundary of the write is used as a crash point (one forked writer per point, plus the after-close control), the writer being the library call or the `signatures create` command and being ended by SIGKILL (nothing runs), SIGTERM or SIGINT (the interpreter unwinds, context managers close the file), the output path being absent, junk or an older complete signature file, the collection being handed over directly, as nested wrappers or as a collection loaded from another signature file; for a sample of payloads every write-type system call of a fresh writer process is used as a crash point through strace fault injection (crashes inside H5Fclose); and for a further sample the writes themselves are torn at byte granularity by an LD_PRELOAD shim (built with gcc at run time) that cuts a write after N bytes and kills the process; the file left behind must be refused or load as exactly the payload.',
 		note='Library-level crash points are h5py call boundaries (attribute set, dataset create, dataset write, flush, close); system-call-level points need ptrace (the check degrades to library level if strace is unavailable). Signals model process death, not power loss. One genuine defect found and repaired (D9: an interrupted write that unwinds left a loadable zero-filled file).',
 		design='DESIGN.md §4 C19',
 	),
 	'C06': dict(
 		category='exploration',
 		technique='Hypothesis-generated multi-contig genomes x file-level transformation stacks; metamorphic equality + per-contig union + definitional k-mer oracle',
-		text='Each generated genome is written as a baseline FASTA and as a transformed file (per-contig reverse complement, contig permutation, case pattern, wrap width 1..200/none, CRLF, no final newline, single- and multi-member gzip with matching or mismatching file name, extensions; contigs larger than the I/O buffers; optionally after a file that failed part-way; k-mer specification built from differently spelled prefixes); the two file signatures must be identical, equal the union of the per-contig signatures and equal the definitional signature of the contig list; contigs with a dangling prefix completed by the next contig make a k-mer across the boundary detectable.',
+		text='Each generated genome is written as a baseline FASTA and as a transformed file (per-contig reverse complement, contig permutation, case pattern, wrap width 1..200/none, CRLF, no final newline, single- and multi-member gzip with matching or mismatching file name, extensions; contigs larger than the I/O buffers; optionally after a file that failed part-way; k-mer specification built from differently spelled prefixes; a chromosome-sized contig with occurrences at block seams); the two file signatures must be identical, equal the union of the per-contig signatures and equal the definitional signature of the contig list; contigs with a dangling prefix completed by the next contig make a k-mer across the boundary detectable.',
 		note='FASTA files are ASCII with one header per record; blank lines / lone-CR line endings are not generated. Biopython\'s FASTA parser is part of the path under test.',
 		design='DESIGN.md §4 C06',
 	),
 	'C13': dict(
 		category='exploration',
 		technique='exhaustive enumeration of task completion orders (n<=5/6) through a controlled executor + Hypothesis-generated real-pool runs and injected unreadable files; oracle: per-file single result in input order',
-		text='All n! completion orders for n <= 5 (quick) / 6 (thorough) are imposed through the public executor= argument by an executor that completes task perm[i] only after perm[i-1] was collected; plus the all-done-before-collection schedule, real thread/process pools with worker counts 1..16 and size skew, sequential mode, the `signatures create -c N` command line, a reused caller-owned thread pool, earlier failing calls in the same process, a fault (missing file, directory, truncated gzip, invalid UTF-8, junk) or a well-formed file without sequence data (empty, header only, empty gzip member) at a drawn position. Result must be one signature per file in input order equal to the single-file result and to the definitional signature of the file content; a supplied executor is left open; an unreadable file fails the whole call.',
+		text='All n! completion orders for n <= 5 (quick) / 6 (thorough) are imposed through the public executor= argument by an executor that completes task perm[i] only after perm[i-1] was collected; plus the all-done-before-collection schedule, real thread/process pools with worker counts 1..16 and size skew, sequential mode, the `signatures create -c N` command line, a reused caller-owned thread pool, earlier failing calls in the same process, a fault (missing file, directory, truncated gzip, invalid UTF-8, junk) a well-formed file without sequence data (empty, header only, empty gzip member), or a read failure of a drawn exception class (time-out, I/O error, StopIteration, futures errors, ...) injected at a drawn moment, at a drawn position. Result must be one signature per file in input order equal to the single-file result and to the definitional signature of the file content; a supplied executor is left open; an unreadable file fails the whole call.',
 		note='Completion order is owned only for the ordered/instant executors; with real pools the OS schedules (sampled with skewed file sizes).',
 		design='DESIGN.md §4 C13',
 	),
@@ -95,7 +95,7 @@ CHECKS = {
 	'C04': dict(
 		category='exploration',
 		technique='Hypothesis-generated genome sets x permuted/padded signature files x 4 id attributes x broken variants; join oracle = id->signature dict built by the harness',
-		text='Databases are written with generated identifiers (nasty Unicode strings, 62-bit ints), unrelated signatures (incl. IDs that collide with another attribute or an outside genome) and drawn file order/names, the genome file in rollback-journal mode, WAL mode, or WAL mode with the true identifiers only in a hot write-ahead log beside a stale file; after load_from_dir each genome must point at the signature stored under its own identifier and query() must report the bit-exact distance to that signature for every genome under several chunk sizes; every way of breaking completeness / id_attr / directory contents must raise.',
+		text='Databases are written with generated identifiers (nasty Unicode strings, 62-bit ints), unrelated signatures (incl. IDs that collide with another attribute or an outside genome) and drawn file order/names, the genome file in rollback-journal mode, WAL mode, or WAL mode with the true identifiers only in a hot write-ahead log beside a stale file; the directory under an awkward name (glob / URL metacharacters) beside decoy databases with similar names; after load_from_dir each genome must point at the signature stored under its own identifier and query() must report the bit-exact distance to that signature for every genome under several chunk sizes; every way of breaking completeness / id_attr / directory contents must raise.',
 		note='Oracle built from what the harness wrote (dict id -> array) and R-JAC. Row (primary-key) order, membership and signature order are independent of each other. Signature IDs within a file are unique (as the property quantifies).',
 		design='DESIGN.md §4 C04',
 	),
@@ -109,7 +109,7 @@ CHECKS = {
 	'C14': dict(
 		category='exploration',
 		technique='Hypothesis-generated pairs/triples of k-mer specs x the full grid of two-source command lines (in-process CLI); oracle: error/exit/no-output on mismatch, else distances under the shared spec (R-KMER -> R-JAC)',
-		text='For generated database / query-file / reference-file / explicit-option parameter combinations (k up to 20, prefixes incl. reverse-complement pairs and lower-case spelling, the default 11/ATGAC given explicitly, database via -d or environment) every command that brings two signature sources together (query -s; dist --qs x {--rs,--use-db,-r,--rl,--square}; dist {-q,--ql} x {--rs,--use-db}; -k without -p; signatures create --db-params with -k/-p) must fail with a reported error, non-zero status and untouched/absent output when any two specs differ, and otherwise produce exactly the distances obtained under the parameters of the pre-computed side.',
+		text='For generated database / query-file / reference-file / explicit-option parameter combinations (k up to 20, prefixes incl. reverse-complement pairs and lower-case spelling, the default 11/ATGAC given explicitly, database via -d or environment, signature files sharing one file name, an earlier run with other parameters on the same files) every command that brings two signature sources together (query -s; dist --qs x {--rs,--use-db,-r,--rl,--square}; dist {-q,--ql} x {--rs,--use-db}; -k without -p; signatures create --db-params with -k/-p) must fail with a reported error, non-zero status and untouched/absent output when any two specs differ, and otherwise produce exactly the distances obtained under the parameters of the pre-computed side.',
 		note='Commands run in-process through click.testing.CliRunner on the working tree. One genuine defect found and repaired (query -s skipped the check).',
 		design='DESIGN.md §4 C14',
 	),
@@ -144,7 +144,7 @@ CHECKS = {
 	'C18': dict(
 		category='exploration',
 		technique='model-based generation of command/library-call histories (Hypothesis lists of steps interpreted against a fresh database copy); invariant after every step: sha256 of both files, nothing flushed, commit raises',
-		text='Histories of 5..25 steps mixing every read-side command (query in all channels/formats, dist --use-db, signatures info/create --db-params, tree), failing commands, library queries with handles left open, ORM edits on each default session (attribute change, add, delete) (also one object both edited and deleted) followed by flush / autoflushing query / commit / rollback - none of which may even attempt a write -, and double opens of the signature file are run against a fresh copy of a generated database whose genome file is put into a drawn valid SQLite configuration (default, WAL, WAL with committed transactions still in the -wal file, a hot rollback journal left by a crashed writer, PERSIST, other page size, user_version, an older table layout, extra tables/indexes/views), interleaved with writable sessions on unrelated files and with another holder of an exclusive advisory lock on the signature file; after every step the sha256 and size of the .gdb and .gs must equal their initial values, the edited session\'s own connection must still show the original rows and commit() must have raised.',
+		text='Histories of 5..25 steps mixing every read-side command (query in all channels/formats, dist --use-db, signatures info/create --db-params, tree), failing commands, library queries with handles left open, ORM edits on each default session (attribute change, add, delete) (also one object both edited and deleted) followed by flush / autoflushing query / commit / rollback - none of which may even attempt a write -, and double opens of the signature file are run against a fresh copy of a generated database whose genome file is put into a drawn valid SQLite configuration (addressed through differently spelled paths; default, WAL, WAL with committed transactions still in the -wal file, a hot rollback journal left by a crashed writer, PERSIST, other page size, user_version, an older table layout, extra tables/indexes/views), interleaved with writable sessions on unrelated files and with another holder of an exclusive advisory lock on the signature file; after every step the sha256 and size of the .gdb and .gs must equal their initial values, the edited session\'s own connection must still show the original rows and commit() must have raised.',
 		note='Only the bytes of the two database files are compared. In-process CLI via CliRunner. One genuine defect found and repaired (D10: a write-ahead log beside the genome file was checkpointed into it by read-side use).',
 		design='DESIGN.md §4 C18',
 	),
@@ -194,7 +194,7 @@ def main():
 			kind_free_text='Hypothesis 6.168 generators + complete enumeration of small finite sub-domains, sharded over 16 worker processes; a hash-selected sample of the generated cases of every check is run again in a fresh interpreter started with python -O / -OO, another string-hash seed or development mode; explicit reference-model / round-trip / metamorphic oracles per property; shrunk failures become replay files',
 		)],
 		checks=checks,
-		notes='Every check: exit 0 = held on everything explored; exit 1 + "VIOLATION property=<id> replay=<path>"; exit 2 = harness error (never a VIOLATION). Seeds: VERIF_SEED. Known findings: /verif/KNOWN_FINDINGS.txt. Sensitivity: /verif/mutants (about 140 mutants incl. native and multi-site ones) and /verif/seeded (80 independently written breaking changes in four rounds; DESIGN.md sections 9-10 record which check catches which).',
+		notes='Every check: exit 0 = held on everything explored; exit 1 + "VIOLATION property=<id> replay=<path>"; exit 2 = harness error (never a VIOLATION). Seeds: VERIF_SEED. Known findings: /verif/KNOWN_FINDINGS.txt. Sensitivity: /verif/mutants (about 145 mutants incl. native and multi-site ones) and /verif/seeded (120 independently written breaking changes in six rounds; DESIGN.md sections 9-10 record which check catches which).',
 		not_applicable=na,
 	)
 	with open(os.path.join(VERIF, 'MANIFEST.json'), 'w') as f:
